@@ -286,7 +286,8 @@ class Circuit:
             raise ValueError("The number of indices does not match the length of self._qubit_indices")
 
         qubits_in_use = self._qubit_indices
-        mapping = {i: j for i, j in zip(qubits_in_use, new_indices)}
+        # i-th entry of new_indices is for the i-th qubit in use, in increasing order (the iteration order of a set is arbitrary)
+        mapping = {i: j for i, j in zip(sorted(qubits_in_use), new_indices)}
         for g in self._gates:
             g.target = [mapping[ind] for ind in g.target]
             if g.control:
